@@ -574,3 +574,20 @@ def iter_find(ex, r, f):
             return NONE()
         if ex.branch(ex.call_value(f, [Ref(Cell(o.fields[0]))])):
             return some(o.fields[0])
+
+
+def _i64_cmp(op):
+    def f(ex, a, b):
+        import z3
+        from .execu import bv, to_signed
+        x, y = D(ex, a), D(ex, b)
+        if isinstance(x, int) and isinstance(y, int):
+            xs, ys = to_signed(x, 64), to_signed(y, 64)
+            return {'lt': xs < ys, 'le': xs <= ys, 'gt': xs > ys, 'ge': xs >= ys}[op]
+        xz, yz = bv(x, 64), bv(y, 64)
+        return {'lt': xz < yz, 'le': xz <= yz, 'gt': xz > yz, 'ge': xz >= yz}[op]      # z3 '<' on bit-vectors is signed
+    return f
+
+
+for _op in ('lt', 'le', 'gt', 'ge'):
+    REG['<i64 as PartialOrd>::' + _op] = _i64_cmp(_op)
